@@ -70,6 +70,16 @@ def gen(seed, idx, tier):
         ops.append(op)
         if r.random() < 0.1:
             ops.append(dict(op))  # the network duplicated it
+        elif r.random() < 0.12 and n == 1:
+            # the peer bounces back what it got: a frame equal to the ERROR reply this message earns (same ids, type
+            # ERROR, that return code, no payload) - a message like any other, answered on its own merits
+            from collections import namedtuple
+            M = namedtuple("M", "service method iface mtype rc payload")
+            m0 = op["msgs"][0]
+            exp, _ = expected_reply(M(m0["svc"], m0["method"], m0["iface"], m0["mtype"], m0["rc"], b""), SVC["methods"], SVC["svc"], SVC["major"])
+            if exp is not None and exp[0] == 0x81:
+                echo = dict(m0, mtype=0x81, rc=exp[1], payload="")
+                ops.append(dict(op, t=round(t + r.choice([0.0, 0.001, 0.02]), 6), msgs=[echo]))
     cfg = {"service": SVC, "timings": TIMINGS, "resolver": [0.0, 0.01]}
     return {"engine": "svc", "property": ID, "class": "random", "seed": seed, "cfg": cfg, "ops": ops, "until": round(t + 0.5, 6)}
 
